@@ -64,7 +64,7 @@ pub fn build(unit: &[(u16, Vec<u16>)], reps: usize, bs: u64, align: bool) -> Bui
                         }
                     }
                 } else if on_last {
-                    out.push(b'p');
+                    // counted only: since fix c8987618 (F8) such blocks must be released like any other
                     padded += 1;
                 }
                 out.push(b'\n');
@@ -109,7 +109,7 @@ impl Property for C17 {
         "C17"
     }
     fn rule(&self) -> String {
-        "case = a generated unit of 8..40 messages (head and continuation line lengths 0..3 blocks, so messages span several blocks) repeated k1 < k2 < k3 times with advancing timestamps (k3 up to 64 quick / 512 thorough) x block size 64..4096|65536 x container plain/gz/bz2/lz4, printed from start to end with --summary. oracle (metamorphic + absolute): the per-file high-water marks `blocks high`, `lines high`, `syslines high` of the largest file must not exceed those of the middle file by more than a constant (2 blocks / the lines+messages of 2 blocks) and must stay under a bound computed from the generated parameters only (ceil(max message/bs)+8 blocks), never from the file size; with -a in the middle of a plain file the bound gains 2*log2(blocks)+8. Plain files are generated so that no newline falls on the last byte of a block (known finding F8, probed separately with aligned newlines: there the growth must stay at or below one block per message). non-trivial = largest file >= 300 blocks and >= 4x the middle file; distinct = hash(case).".into()
+        "case = a generated unit of 8..40 messages (two thirds of the units keep every line under a quarter block, one third has head and continuation lines of up to 3 blocks; messages span several blocks either way; one case in ten forces newlines onto the last byte of blocks) repeated k1 < k2 < k3 times with advancing timestamps (k3 up to 64 quick / 512 thorough, x4 at 64 KiB) x block size 256..4096|65536 x container plain/gz/bz2/lz4, printed from start to end with --summary. oracle (metamorphic + absolute): the per-file high-water marks `blocks high`, `lines high`, `syslines high` of the largest file must not exceed those of the middle file by more than a constant (2 blocks / the lines+messages of 2 blocks) and must stay under a bound computed from the generated parameters only (ceil(max message/bs)+8 blocks), never from the file size; with -a in the middle of a plain file the bound gains (2*log2(blocks)+8) x (blocks per message + 1). No growth is tolerated since the fixes 5189d6da/c8987618 (formerly known findings F8, F19, F20). non-trivial = largest file >= 300 blocks and >= 3x the middle file; distinct = hash(case).".into()
     }
     fn assumptions(&self) -> Vec<String> {
         vec!["high-water marks are those reported by --summary".into(), "constants calibrated on the unchanged tree with margin (see DESIGN.md C17)".into()]
@@ -120,25 +120,28 @@ impl Property for C17 {
     fn probes(&self, _tier: Tier) -> Vec<(String, Case)> {
         vec![
             ("aligned-newlines-plain".into(), Case { unit: vec![(20, vec![]), (35, vec![10]), (50, vec![])], bs: 256, cont: 0, reps: vec![8, 64, 512], align_newlines: true, after_frac: None }),
-            ("lines-longer-than-block-plain".into(), Case { unit: vec![(400, vec![]), (20, vec![]), (700, vec![300]), (10, vec![])], bs: 256, cont: 0, reps: vec![8, 32, 128], align_newlines: false, after_frac: None }),
-            ("lines-longer-than-block-gz".into(), Case { unit: vec![(400, vec![]), (20, vec![]), (700, vec![300]), (10, vec![])], bs: 256, cont: 1, reps: vec![8, 32, 128], align_newlines: false, after_frac: None }),
+            ("lines-longer-than-block-plain".into(), Case { unit: vec![(20, vec![]), (400, vec![]), (700, vec![300]), (10, vec![]), (500, vec![]), (600, vec![])], bs: 256, cont: 0, reps: vec![8, 32, 128], align_newlines: false, after_frac: None }),
+            ("lines-longer-than-block-gz".into(), Case { unit: vec![(20, vec![]), (400, vec![]), (700, vec![300]), (10, vec![]), (500, vec![]), (600, vec![])], bs: 256, cont: 1, reps: vec![8, 32, 128], align_newlines: false, after_frac: None }),
         ]
     }
     fn strategy(&self, tier: Tier) -> BoxedStrategy<Case> {
         let kmax = tier.pick(64u16, 512);
         let bs = prop_oneof![3 => 256u64..600, 2 => 600u64..4096, 1 => Just(65536u64)];
         bs.prop_flat_map(move |bs| {
-            // every line (timestamp 38 bytes + body + newline) stays below a quarter of the block (known finding F16:
-            // lines longer than a block are retained); messages still span several blocks through continuation lines
+            // most units keep every line below a quarter of the block; a third have lines of up to 3 blocks
+            // (formerly excluded as finding F19); messages span several blocks through continuation lines either way
             let q = (bs / 4).min(400) as u16;
-            let head = 0u16..q.saturating_sub(46).max(1);
-            let cont = 0u16..q.max(1);
-            let msg = (head, prop_oneof![3 => prop::collection::vec(cont.clone(), 0..3), 1 => prop::collection::vec(cont, 3..14)]);
-            (prop::collection::vec(msg, 8..40), Just(bs), 0u8..4, prop::option::weighted(0.25, any::<u16>()))
+            let long = if bs >= 65536 { q } else { (3 * bs).min(3000) as u16 };
+            let head = prop_oneof![9 => 0u16..q.saturating_sub(46).max(1), 1 => 0u16..long.max(1)];
+            let cont = prop_oneof![9 => 0u16..q.max(1), 1 => 0u16..long.max(1)];
+            let shortmsg = (0u16..q.saturating_sub(46).max(1), prop_oneof![3 => prop::collection::vec(0u16..q.max(1), 0..3), 1 => prop::collection::vec(0u16..q.max(1), 3..14)]);
+            let anymsg = (head, prop_oneof![3 => prop::collection::vec(cont.clone(), 0..3), 1 => prop::collection::vec(cont, 3..14)]);
+            let unit = prop_oneof![2 => prop::collection::vec(shortmsg, 8..40), 1 => prop::collection::vec(anymsg, 8..40)];
+            (unit, Just(bs), 0u8..4, prop::option::weighted(0.25, any::<u16>()), prop::bool::weighted(0.1))
         })
-        .prop_map(move |(unit, bs, cont, after_frac)| {
+        .prop_map(move |(unit, bs, cont, after_frac, align)| {
             let k3 = if bs >= 65536 { kmax.max(64) * 4 } else { kmax };
-            Case { unit, bs, cont, reps: vec![(k3 / 16).max(1), (k3 / 4).max(2), k3], align_newlines: false, after_frac: if cont == 0 { after_frac } else { None } }
+            Case { unit, bs, cont, reps: vec![(k3 / 16).max(1), (k3 / 4).max(2), k3], align_newlines: align, after_frac: if cont == 0 { after_frac } else { None } }
         })
         .boxed()
     }
@@ -202,7 +205,8 @@ impl Property for C17 {
         let (k3, sz3, h3, nmsg3) = hws[hws.len() - 1];
         let msg_blocks = (max_msg as u64 + bs - 1) / bs;
         let with_search = case.after_frac.is_some();
-        let log_term = if with_search { 2 * (64 - blocks_of(sz3).leading_zeros() as u64) + 8 } else { 0 };
+        // each probe of the binary search may read one whole message (msg_blocks blocks) and its neighbour
+        let log_term = if with_search { (2 * (64 - blocks_of(sz3).leading_zeros() as u64) + 8) * (msg_blocks + 1) } else { 0 };
         let abs_blocks = msg_blocks + 8 + log_term;
         let ctx = format!(
             "container={} bs={} unit_msgs={} max_msg={}B reps={:?} sizes={:?} blocks_high={:?} lines_high={:?} syslines_high={:?} -a={:?}",
@@ -217,31 +221,6 @@ impl Property for C17 {
             hws.iter().map(|h| h.2.syslines_high).collect::<Vec<_>>(),
             case.after_frac
         );
-        if case.align_newlines {
-            // known finding F8: blocks ending in a newline are never released. The growth must still be sub-linear
-            // in bytes: at most one retained block per message.
-            if h3.blocks_high > abs_blocks && h3.blocks_high > h2.blocks_high + 2 {
-                if h3.blocks_high as usize > nmsg3 + 16 {
-                    return Outcome::fail("blocks-linear", format!("aligned newlines: blocks high {} exceeds one per message ({}) {}", h3.blocks_high, nmsg3, ctx));
-                }
-                return Outcome::fail("blocks-retained-newline-aligned", format!("blocks whose last byte is a newline are never released: {}", ctx));
-            }
-            return Outcome::pass(true, hash_debug(case)).class("aligned-newlines");
-        }
-        // known finding F16: when lines are longer than a block, lines (and for plain files blocks) are retained
-        let long_lines = case.unit.iter().any(|(h, c)| *h as u64 + 46 > bs || c.iter().any(|l| *l as u64 + 1 > bs));
-        if long_lines {
-            let grows = h3.blocks_high > h2.blocks_high + 2 || h3.lines_high > h2.lines_high + bs + 1;
-            if grows {
-                // still bounded by one retained block / line per line of the file
-                let total_lines: usize = case.unit.iter().map(|(_, c)| 1 + c.len()).sum::<usize>() * k3;
-                if h3.lines_high as usize > total_lines + 16 {
-                    return Outcome::fail("lines-above-total", format!("lines high above the number of lines in the file: {}", ctx));
-                }
-                return Outcome::fail("retained-with-lines-longer-than-block", format!("lines longer than a block: data retained in proportion to the file size: {}", ctx));
-            }
-            return Outcome::pass(true, hash_debug(case)).class("long-lines");
-        }
         // relative growth between the middle and the largest file
         let unit_lines: u64 = case.unit.iter().map(|(_, c)| 1 + c.len() as u64).sum();
         let added_blocks = blocks_of(sz3).saturating_sub(blocks_of(sz2));
@@ -252,27 +231,14 @@ impl Property for C17 {
         let grow_l = h3.lines_high.saturating_sub(h2.lines_high);
         let grow_s = h3.syslines_high.saturating_sub(h2.syslines_high);
         let big_enough = sz2 > 2 * abs_blocks * bs;
-        // at the default block size (ordinary lines are far shorter than a block) no creeping is tolerated at all
-        let strict = bs >= 65536;
         if grow_b > 2 + log_term && h3.blocks_high > abs_blocks {
-            // known finding F18: a small fraction of drops fails and the data stays; anything at or above half
-            // of the added blocks means released data is (mostly) not released at all
-            if grow_b * 2 >= added_blocks || strict {
-                return Outcome::fail("blocks-grow", format!("blocks high grows with file size ({} of {} added blocks retained): {}", grow_b, added_blocks, ctx));
-            }
-            return Outcome::fail("slow-growth-failed-drops", format!("blocks high grows slowly with file size ({} of {} added blocks retained): {}", grow_b, added_blocks, ctx));
+            return Outcome::fail("blocks-grow", format!("blocks high grows with file size ({} of {} added blocks retained): {}", grow_b, added_blocks, ctx));
         }
         if big_enough && grow_l > slack_lines {
-            if grow_l * 2 >= added_lines || strict {
-                return Outcome::fail("lines-grow", format!("lines high grows with file size ({} of {} added lines retained): {}", grow_l, added_lines, ctx));
-            }
-            return Outcome::fail("slow-growth-failed-drops", format!("lines high grows slowly with file size ({} of {} added lines retained): {}", grow_l, added_lines, ctx));
+            return Outcome::fail("lines-grow", format!("lines high grows with file size ({} of {} added lines retained): {}", grow_l, added_lines, ctx));
         }
         if big_enough && grow_s > slack_lines {
-            if grow_s * 2 >= added_lines || strict {
-                return Outcome::fail("syslines-grow", format!("syslines high grows with file size: {}", ctx));
-            }
-            return Outcome::fail("slow-growth-failed-drops", format!("syslines high grows slowly with file size: {}", ctx));
+            return Outcome::fail("syslines-grow", format!("syslines high grows with file size ({} of about {} added): {}", grow_s, added_lines, ctx));
         }
         let nontrivial = blocks_of(sz3) >= 300 && sz3 >= 3 * sz2 && k3 > k2;
         let mut o = Outcome::pass(nontrivial, hash_debug(case));
@@ -288,10 +254,16 @@ impl Property for C17 {
             o = o.class("with -a (search first)");
         }
         if padded_total > 0 {
-            o = o.class("newline-moved-off-block-end");
+            o = o.class("newline-on-block-end");
+        }
+        if case.align_newlines {
+            o = o.class("aligned-newlines");
+        }
+        if case.unit.iter().any(|(h, c)| *h as u64 + 46 > bs || c.iter().any(|l| *l as u64 + 1 > bs)) {
+            o = o.class("line-longer-than-block");
         }
         o.with_sample(json!({"container": codec.kind(), "bs": bs, "reps": case.reps, "sizes": hws.iter().map(|h| h.1).collect::<Vec<_>>(),
             "blocks_high": hws.iter().map(|h| h.2.blocks_high).collect::<Vec<_>>(), "lines_high": hws.iter().map(|h| h.2.lines_high).collect::<Vec<_>>(),
-            "syslines_high": hws.iter().map(|h| h.2.syslines_high).collect::<Vec<_>>(), "bound_blocks": abs_blocks, "newlines_moved": padded_total}))
+            "syslines_high": hws.iter().map(|h| h.2.syslines_high).collect::<Vec<_>>(), "bound_blocks": abs_blocks, "newlines_on_block_end": padded_total}))
     }
 }
